@@ -184,7 +184,7 @@ def closed_form_search(ctx, nmax):
         return ({'multicomplex': 1.06, 'complex': 1.06 + c}.get(method, 2.5) + int(n - 1) * {'multicomplex': 0, 'complex': 0.0}.get(method, 1.3)
                 + o2 * {'central': 3, 'forward': 2, 'backward': 2}.get(method, 0))
     eps_ = 2.0 ** -52
-    for method, n, order in itertools.product(['central', 'forward', 'backward', 'complex', 'multicomplex'], (1, 2, 3, 4, 5, 8), (1, 2, 4, 6)):
+    for method, n, order in itertools.product(['central', 'forward', 'backward', 'complex', 'multicomplex'], range(1, 18), (1, 2, 3, 4, 6, 9)):
         for x in (0.0, 0.3, -0.9, 5.0, -40.0, 1e3):
             for exact in (True, False):
                 g = MinStepGenerator(use_exact_steps=exact, num_extrap=2)
